@@ -114,14 +114,7 @@ func vtpRoundTrip(tr *vTrace, p *vtpPair, data []byte, limit uint32, kind string
 		res string
 	}
 	ch := make(chan rcv, 1)
-	var sendRes string
-	sendRes, _ = vCall(func() error { return p.client.Send(data) })
-	m := vM{"ev": "Frame", "kind": kind, "size": len(data), "limit": int(limit), "send": sendRes,
-		"recv": "none", "recv_size": -1, "same": false}
-	if sendRes != "ok" {
-		tr.Emit(m)
-		return true
-	}
+	// the receiver runs while the sender writes (a large frame needs the peer to read)
 	go func() {
 		var got *TransportMessage
 		res, _ := vCall(func() error {
@@ -131,6 +124,18 @@ func vtpRoundTrip(tr *vTrace, p *vtpPair, data []byte, limit uint32, kind string
 		})
 		ch <- rcv{got, res}
 	}()
+	sendStart := time.Now()
+	sendRes, _ := vCall(func() error { return p.client.Send(data) })
+	if sendRes == "err" && time.Since(sendStart) > WriteDeadline*9/10 {
+		sendRes = "timeout" // the write deadline passed (overloaded machine): not a verdict, the driver stops
+	}
+	m := vM{"ev": "Frame", "kind": kind, "size": len(data), "limit": int(limit), "send": sendRes,
+		"recv": "none", "recv_size": -1, "same": false}
+	if sendRes != "ok" {
+		// nothing usable was sent: the pending receive is abandoned together with the pair
+		tr.Emit(m)
+		return false
+	}
 	select {
 	case r := <-ch:
 		m["recv"] = r.res
